@@ -4,6 +4,7 @@ import SFV.Model.PhaseSpace
 import SFV.Model.Bosonic
 import SFV.Model.FockPrep
 import SFV.Model.GaussBackend
+import SFV.Model.FockLoss
 /-! Driver for K3 (Gaussian simulator model over `Rat`) and K4 (Fock tensor index algebra over
 Gaussian integers).  Ops: `fock.apply`, `gauss.run`. -/
 namespace SFV.Drv.Sim
@@ -309,8 +310,17 @@ def bosApply (j : Json) : R Json := do
     ("mu", jarr (rng.map fun r => jrat (mu' r))),
     ("V", jarr (rng.map fun r => jarr (rng.map fun c => jrat (V' r c))))]
 
+/-- `ops.lossChannel(T, D)`: number of Kraus operators and the squared band amplitudes `|E(k)[n−k, n]|²` -/
+def fockLossSq (j : Json) : R Json := do
+  let D ← getNat j "D"
+  let T ← getRat j "T"
+  let rng := List.range D
+  pure <| Json.mkObj [("count", jnat (lossKrausList (fun _ _ => (0 : Rat)) D).length),
+    ("sq", jarr (rng.map fun k => jarr (rng.map fun n => jrat (lossSq T k n))))]
+
 def handler (op : String) (j : Json) : Option (R Json) :=
   match op with
+  | "fock.lossSq" => some (fockLossSq j)
   | "fock.apply" => some (fockApply j)
   | "gauss.run" => some (gaussRun j)
   | "bos.apply" => some (bosApply j)
